@@ -39,19 +39,21 @@ LEVEL_TEXT = ("Coq theorems (lists of any length, unbounded Z, every n, every ne
               "hoist_classification for every nesting, fixup_idempotent, cache_coherent, flags_only_affect_diagnostics, and repeat_unroll "
               "(threaded n-fold compilation = the body written out n times, same bytes and same success/failure) for bodies without '.end'; "
               "Structure -- link_is_concat, insert_is_bytes, end_cuts_own_file (also through includes), once_first_only, by induction over statement "
-              "lists.  Operators, purity flags and get_as_int are regenerated from the source on every run; the hand-written models are tied by "
+              "lists.  Operators, purity flags and get_as_int are regenerated from the source on every run and the source of the mirrored mechanisms is pinned; the hand-written models are tied by "
               "correspondence on every generated case, evaluated with vm_compute in coqc.")
 LEVEL_NOTE = ("TreeCache is a value-level model (final integer addresses): with an unknown base the code evaluates lazily, possibly repeatedly and "
               "keyed on object identity; the proofs show a cache hit equals a recomputation in every coherent state, and the sweep runs both base modes. "
               "Symbol scoping is outside both models (same env on both sides = the hypothesis 'no reference to an enclosing local label / no shared "
               "private names'); that side is covered by the metamorphic sweep on rich programs.  '%expr' registers are unmodelled (explicit Crash). "
               "Known finding: '.end' inside a '.repeat' body (hypothesis no_end_in_body; refutation of the full statement in Props/C16_findings.v). "
-              "Print Assumptions: closed under the global context for all 19 theorems.")
+              "Print Assumptions: closed under the global context for all 20 theorems.")
 TECHNIQUE = "Coq proof about hand-written executable models + model/implementation correspondence in coqc + metamorphic search oracle on the real code"
 ASSUME = ["pdpy11's parser maps the generated text to the token tree that is handed to the model (the tree is taken from the parser itself)",
           "symbols used in a '.repeat' body resolve to the same definitions in the unrolled text (no enclosing local labels referenced)",
           "linked / pasted files share no private or local names (generator keeps names disjoint)"]
-TRUSTED = ["tools/c16gen.py: token tree -> Coq term converter, slot layout read from insns.instructions by introspection, textual transformations",
+TRUSTED = ["tools/gens/gen_treecache.py: pins (ast.dump equality) the source of hoist() incl. its copy.copy calls, wrap_impure, Infix/UnaryOperator.resolve, "
+           "the fixup_label closure and metacommands.repeat; an edit aborts the translator (Gen/GenTreeCachePins.v, imported by Model/TreeCache.v)",
+           "tools/c16gen.py: token tree -> Coq term converter, slot layout read from insns.instructions by introspection, textual transformations",
            "tools/proggen.py (program generator; inputs only)"]
 
 # ------------------------------------------------------------------------------------------------
